@@ -182,7 +182,7 @@ def _call(draw, types, scalar, want_bool=False):
 
 
 @st.composite
-def programs(draw, max_ops=6, allow_batch=True, allow_sink=True, scalar_start=None, allow_select=True):
+def programs(draw, max_ops=6, allow_batch=True, allow_sink=True, scalar_start=None, allow_select=True, allow_apply=True):
   """-> {'ops': [...], 'scalar': bool (records are ints)}. Tracks the record schema so every op is valid."""
   scalar = draw(st.booleans()) if scalar_start is None else scalar_start
   start_scalar = scalar
@@ -202,7 +202,7 @@ def programs(draw, max_ops=6, allow_batch=True, allow_sink=True, scalar_start=No
     else:
       # assigning next to a SELF output is a documented build-time error ("Cannot mix SELF with other keys")
       can_assign = 'SELFKEY' not in okeys
-      kinds = ['apply', 'filter'] + (['assign', 'assign'] if can_assign else []) + (['select'] if allow_select else []) + (
+      kinds = (['apply'] if allow_apply else []) + ['filter'] + (['assign', 'assign'] if can_assign else []) + (['select'] if allow_select else []) + (
           ['sink'] if allow_sink else []) + (['batch'] if allow_batch else [])
     kind = draw(st.sampled_from(kinds))
     if kind == 'apply':
